@@ -925,3 +925,40 @@ def ord15_store_not_conditional_on_presence(ctx):
                                                    'under a reused id survives while the catalogue records the new content'),
                       where(st))
     ctx.require(n >= 3, 'ORD-15: fewer than 3 BlobWriter::store sites in Storage (%d)' % n)
+
+
+# ------------------------------------------------------------------------------------ ERV-4
+ERRTY = re.compile(r'(std::io::Error|dyn std::error::Error|capnp::Error|errors::QueryError|QueryError|reqwest::Error)')
+
+
+def erv4_no_error_discarded(ctx):
+    ctx.rule('ERV-4', 'no result that carries an I/O, decode or query error is discarded (`let _ =`, '
+                      '`.ok()` unused, `drop`): every such result is propagated, matched, unwrapped or '
+                      'returned - a swallowed error turns a failed write / a corrupt file into silent '
+                      'data loss', floor=1)
+    P = ctx.P
+    n = 0
+    for b in P.fn_bodies():
+        du = None
+        for blk, t in b.calls():
+            if blk.cleanup or not t.dest:
+                continue
+            m = re.match(r'^_(\d+)$', t.dest.strip())
+            if not m:
+                continue
+            ty = b.local_type(int(m.group(1))) or ''
+            if not ty.startswith('std::result::Result<') or not ERRTY.search(ty):
+                continue
+            if t.span is not None and not t.span.is_local():
+                continue
+            du = du or DefUse(b)
+            use = classify_result_use(b, du, t)
+            n += 1
+            if use['kind'] not in ('try', 'returned', 'match', 'unwrap', 'passed'):
+                callee = '::'.join(norm_callee(t.func).split('::')[-2:])
+                ctx.violation('ERV-4', '%s|%s' % (b.name, callee),
+                              'the %s of %s is %s' % (ERRTY.search(ty).group(1) + ' result', callee, use['kind']),
+                              where(t))
+    ctx.require(n >= 100, 'ERV-4: only %d error-carrying results found (anchor)' % n)
+    ctx.ok('ERV-4', 'all-crates|error-results-consumed', '%d call results with an I/O / decode / query error '
+           'type are all propagated, matched, unwrapped or returned' % n, None)
